@@ -192,7 +192,7 @@ def get_controller_order_multinet(multinet):
         # if no controllers are in the net, we have no levels and no order lists
         multinets = [multinet] * len(multinet.controller)
         net_list += multinets
-        controller_list += [multinet.controller.values]
+        controller_list += [multinet.controller]
 
     for net_name in multinet['nets'].keys():
         net = multinet['nets'][net_name]
@@ -201,15 +201,13 @@ def get_controller_order_multinet(multinet):
             continue
         nets = [net] * len(net.controller)
         net_list += nets
-        controller_list += [net.controller.values]
+        controller_list += [net.controller]
 
     if not len(controller_list):
         # if no controllers are in the net, we have no levels and no order lists
         return [0], [[]]
     else:
-        controller_list = pd.DataFrame(np.concatenate(controller_list),
-                                       columns=multinet.controller.columns)
-        controller_list = controller_list.astype(multinet.controller.dtypes)
+        controller_list = pd.concat(controller_list, ignore_index=True)
         return get_controller_order(net_list, controller_list)
 
 
